@@ -350,6 +350,15 @@ def run(rep, tier):
             _c20.clause_stable_pointer(facts, rep, files=('sonic/dom/serialize.h', 'sonic/writebuffer.h'))
         from .. import narrowing
         narrowing.check(get_facts(facts.config, norm=True), rep, 'E3.lossless-narrowing', ('itoa.h',), min_sites=1)
+    # which writer each integer kind goes to is also decided by the serializer exploration (leaves 2^64-1, 2^63, -2^63
+    # included; shared with C06): the switch-shaped rule E9.kind-dispatch is corroborated by it
+    try:
+        from . import c06 as _c06
+        _c06.clause_serializer(get_facts('K1'), rep, 'quick')
+    except AnalysisBroken as ex:
+        rep.broken.append(str(ex))
+    rep.corroborate('E9.kind-dispatch', 'E6.serializer')
+    rep.corroborate_floor('C08: number sub-type dispatch', 'E6.serializer')
     rep.trust('clang 14 front end and constant evaluator', 'Intel intrinsic lane semantics in sv/sse_interp.py',
               'exact-division theorem (Hacker\'s Delight 10-9)', 'Python big integers')
     rep.assumptions += [
